@@ -25,7 +25,7 @@ lengths agree within `ε`, `fage v` the age `calc_node_ages` assigns without for
 * tie A (`Gen/C17Kernels.lean`, regenerated from treemeasure.py / _tree.py on every run): `bridge_b1`, `bridge_colless_loop`,
   `bridge_colless_norms`, `bridge_norm_tables`, `bridge_euler`, `bridge_sackin`, `bridge_treeness`, `bridge_gamma_loop`,
   `bridge_gamma_ret`, `bridge_setlen`, `bridge_ultra`, `bridge_lineages_depths` — the regenerated kernels equal the model's.
-* list forms and `Node` methods: `node_ages_sorted_spec`, `coal_intervals_spec`, `root_distance_list_spec`,
+* list forms and `Node` methods: `node_ages_sorted_spec`, `node_ages_sorted_any` (any configuration, forcing included), `coal_intervals_spec`, `root_distance_list_spec`,
   `distance_from_tip_spec`, `distance_from_root_spec`. -/
 namespace DendroModel.C17.Aux
 open DendroModel DendroModel.C17
@@ -1790,5 +1790,50 @@ example : nodeAges ⟨some Frac.zero, false, false⟩ false exTree = .ok [⟨0, 
 example : distFromRoot (.node 0 none (some ⟨3, 1⟩) none [.node 1 (some 0) (some ⟨1, 1⟩) none []])
     = [(0, .ok ⟨3, 1⟩), (1, .ok ⟨4, 1⟩)] ∧ maxDistFromRoot exTree = .ok ⟨2, 1⟩ ∧
     rootDistList false exTree = .ok [⟨0, 1⟩, ⟨1, 1⟩, ⟨2, 1⟩, ⟨2, 1⟩, ⟨2, 1⟩] := ⟨rfl, rfl, rfl⟩
+
+/-- Every age `calc_node_ages` assigns — under ANY configuration: checking, disabled, either forcing option — is a well-formed
+number, so `node_ages` / `internal_node_ages` return an ASCENDING list under every configuration (not only without
+forcing, as in `node_ages_sorted_spec`), and `set_lengths_spec` applies to every tree `calc_node_ages` produces. -/
+theorem node_ages_sorted_any (cfg : Cfg) (io : Bool) (t : T) :
+    (∀ a, calcNodeAges cfg t = .ok a → AWF a) ∧
+    (∀ r, nodeAges cfg io t = .ok r → r.Pairwise (fun x y => x.toRat ≤ y.toRat)) := by
+  have h1 : ∀ a, calcNodeAges cfg t = .ok a → AWF a := by
+    intro a h
+    unfold calcNodeAges at h
+    split at h
+    · cases h
+    · exact calcAges_awf cfg t a h
+  refine ⟨h1, ?_⟩
+  intro r h
+  unfold nodeAges at h
+  cases hc : calcNodeAges cfg t with
+  | error e => rw [hc] at h; cases h
+  | ok a =>
+    rw [hc] at h
+    simp only [Except.ok.injEq] at h
+    subst h
+    exact sortAsc_asc _ (returned_wf io a (h1 a hc))
+
+/-- `node_ages_sorted_any` under a forcing option on a non-ultrametric tree `(A:1,B:3)`: ages 0,0,3 sorted -/
+example : nodeAges ⟨none, true, false⟩ false
+    (.node 0 none none none [.node 1 (some 0) (some ⟨1, 1⟩) none [], .node 2 (some 1) (some ⟨3, 1⟩) none []])
+    = .ok [⟨0, 1⟩, ⟨0, 1⟩, ⟨3, 1⟩] := rfl
+
+/-- Polytomies: EVERY non-first child is compared with the first, not only the last.  `(A:1,B:3,C:1)` with precision 1: the
+deviating MIDDLE child makes `calc_node_ages` reject (`reject_iff_local`: `LocalOK` fails at the root), while `(A:1,B:1,C:1)`
+is accepted. -/
+example : calcNodeAges ⟨some Frac.one, false, false⟩
+      (.node 0 none none none [.node 1 (some 0) (some ⟨1, 1⟩) none [], .node 2 (some 1) (some ⟨3, 1⟩) none [],
+        .node 3 (some 2) (some ⟨1, 1⟩) none []]) = .error .ultra ∧
+    (∃ a, calcNodeAges ⟨some Frac.one, false, false⟩
+      (.node 0 none none none [.node 1 (some 0) (some ⟨1, 1⟩) none [], .node 2 (some 1) (some ⟨1, 1⟩) none [],
+        .node 3 (some 2) (some ⟨1, 1⟩) none []]) = .ok a) := ⟨rfl, ⟨_, rfl⟩⟩
+
+/-- `reject_iff_local` instantiated on that trifurcation: its hypotheses hold and it yields `¬ LocalOK 1` from the rejection -/
+example : ¬ LocalOK (Frac.one).toRat
+    (.node 0 none none none [.node 1 (some 0) (some ⟨1, 1⟩) none [], .node 2 (some 1) (some ⟨3, 1⟩) none [],
+      .node 3 (some 2) (some ⟨1, 1⟩) none []]) :=
+  ((reject_iff_local (cfg := ⟨some Frac.one, false, false⟩) (p := Frac.one) _
+    (by simp [WFT, WFTL, olen, Frac.WF, Frac.zero]) (by simp [Frac.WF, Frac.one]) (by decide)).1).mp rfl
 
 end DendroModel.C17
